@@ -111,6 +111,16 @@ def write_pcapng(items, cfg):
             elif kind == "custom_nocopy":
                 body = struct.pack(e + "I", 32473) + _pad4(r.bytes(r.range(0, 40)))
                 out.append(_block(e, 0x40000BAD, body))
+            elif kind == "idb2":
+                # description of a further, unused interface with its own timestamp resolution / offset; every packet
+                # of the capture still belongs to interface 0
+                o2 = _opt(e, 2, b"usb%d" % r.below(4))
+                if r.chance(70):
+                    o2 += _opt(e, 9, bytes([r.choice([3, 9, 0x80 | 10, 0x80 | 20, 6])]))
+                if r.chance(40):
+                    o2 += _opt(e, 14, struct.pack(e + "q", r.choice([1, -1, 3600, 86400 * 365])))
+                o2 += _opt(e, 0, b"")
+                out.append(_block(e, 1, struct.pack(e + "HHI", r.choice([1, 220, 127]), 0, 0x40000) + o2))
             elif kind == "unknown":
                 out.append(_block(e, 0x00000BB0 + r.below(8), _pad4(r.bytes(r.range(0, 64)))))
             else:
